@@ -116,6 +116,17 @@ func jobsFor(prop, tier string) []Job {
 				add("enum", fmt.Sprintf("treebidimap.%s.%s.u%d", kc, vc, n), 8, map[string]string{"c": "treebidimap", "cmp": kc, "vcmp": vc}, map[string]int{"u": n, "vu": pick(3, 4), "maxn": n})
 			}
 		}
+	case "C11":
+		for _, jb := range jsonContainerJobs(q, pick(4, 6), pick(4, 5)) {
+			jb.p["depth"] = pick(2, 3)
+			add("json11", jb.id, jb.w, jb.s, jb.p)
+		}
+	case "C12":
+		for _, jb := range jsonContainerJobs(q, pick(2, 3), pick(2, 3)) {
+			jb.p["depth"] = pick(2, 3)
+			jb.p["prior"] = pick(2, 3)
+			add("json12", jb.id, jb.w+10, jb.s, jb.p)
+		}
 	case "C15":
 		for _, jb := range allContainerJobs(q) {
 			jb.p["depth"] = pick(1, 2)
@@ -187,6 +198,52 @@ func allContainerJobs(q bool) []cjob {
 	js = append(js, cjob{"avl", 5, map[string]string{"c": "avl"}, map[string]int{"n": tn, "rank": 1}})
 	for _, m := range []int{3, 4, 5} {
 		js = append(js, cjob{fmt.Sprintf("btree%d", m), 5, map[string]string{"c": "btree"}, map[string]int{"m": m, "n": tn + 1, "rank": 1}})
+	}
+	return js
+}
+
+// jsonContainerJobs: all 21 containers with JSON-representable element types
+// (int and string elements / keys / values), every ring capacity 1..4, B-tree orders 3..6.
+// n: size bound for sequence-like containers, u: universe for sets/maps.
+func jsonContainerJobs(q bool, n, u int) []cjob {
+	var js []cjob
+	addj := func(id string, w int, s map[string]string, p map[string]int) {
+		for _, el := range []string{"int", "str"} {
+			ss := map[string]string{"elem": el}
+			for k, v := range s {
+				ss[k] = v
+			}
+			pp := map[string]int{}
+			for k, v := range p {
+				pp[k] = v
+			}
+			js = append(js, cjob{id + "." + el, w, ss, pp})
+		}
+	}
+	for _, c := range []string{"arraylist", "singlylinkedlist", "doublylinkedlist"} {
+		addj(c, 6, map[string]string{"c": c}, map[string]int{"n": n, "u": 2})
+	}
+	for _, c := range []string{"arraystack", "linkedliststack", "arrayqueue", "linkedlistqueue"} {
+		addj(c, 2, map[string]string{"c": c}, map[string]int{"n": n, "u": 2})
+	}
+	for cp := 1; cp <= 4; cp++ {
+		addj(fmt.Sprintf("circularbuffer%d", cp), 1, map[string]string{"c": "circularbuffer"}, map[string]int{"cap": cp, "u": 2})
+	}
+	for _, c := range []string{"binaryheap", "priorityqueue"} {
+		addj(c, 3, map[string]string{"c": c}, map[string]int{"n": n, "u": 3, "jsonlen": 2})
+		js = append(js, cjob{c + ".struct", 3, map[string]string{"c": c}, map[string]int{"n": n, "pmax": 2, "jsonlen": 2}})
+	}
+	for _, c := range []string{"hashset", "linkedhashset", "treeset", "hashmap", "linkedhashmap", "treemap", "rbt", "avl"} {
+		addj(c, 2, map[string]string{"c": c}, map[string]int{"u": u, "vu": 2})
+	}
+	for _, c := range []string{"treeset", "treemap", "rbt"} {
+		addj(c+".rev", 2, map[string]string{"c": c, "cmp": "rev"}, map[string]int{"u": u, "vu": 2})
+	}
+	for _, c := range []string{"hashbidimap", "treebidimap"} {
+		addj(c, 2, map[string]string{"c": c}, map[string]int{"u": u - 1, "vu": u - 1})
+	}
+	for m := 3; m <= 6; m++ {
+		addj(fmt.Sprintf("btree%d", m), 4, map[string]string{"c": "btree"}, map[string]int{"m": m, "u": u + 2, "vu": 2})
 	}
 	return js
 }
